@@ -1,5 +1,6 @@
 import Driver.Util
 import NutsModel.C02.Token
+import NutsModel.C02.History
 import NutsModel.Facts.C02
 open Lean Nuts.Drv Nuts.C02 Nuts
 
@@ -65,6 +66,12 @@ def showResp : Res TokenResponse → String
   | .err e => "err:" ++ e
   | .panic p => "panic:" ++ p
 
+def showAuthOut : Res AuthOut → String
+  | .ok (.code name cs) => s!"200 code={name} state={cs}"
+  | .ok (.next owner n) => s!"200 next={owner} nonce={n}"
+  | .err e => "err:" ++ e
+  | .panic p => "panic:" ++ p
+
 def showObj : Res Obj → String
   | .ok o =>
     let sorted := (o.toArray.qsort (fun a b => a.1 < b.1)).toList
@@ -123,6 +130,16 @@ def step (st : St) (j : Json) : St × List String :=
       | .err e => "err:" ++ e
       | .panic p => "panic:" ++ p
     ({ st with w := w' }, [out])
+  | "race" =>
+    let r : AuthResp :=
+      { subject := jStr j "subject", state := optStr j "state", vpToken := jBool j "vp_token",
+        envelopeOK := jBool j "envelope_ok", vps := (jArr j "vps").map parseVP, submission := jBool j "submission",
+        submissionOK := jBool j "submission_ok", subDefId := jStr j "def_id", pex := parsePex j "pex",
+        claims := parseClaims j "claims" }
+    -- the serial order is the order in which the threads take their (single, atomic) step on the nonce entry
+    let firstIsA := match jNats j "schedule" with | 1 :: _ => false | _ => true
+    let (w', oa, ob) := raceAuthorize st.cfg st.w t r firstIsA
+    ({ st with w := w' }, [s!"race A[{showAuthOut oa}] B[{showAuthOut ob}]"])
   | "code" =>
     let r : CodeReq := { subject := jStr j "subject", code := optStr j "code", verifier := optStr j "verifier",
                          clientId := optStr j "client_id", dpop := parseDPoP (jObj j "dpop") }
